@@ -10,6 +10,8 @@ import (
 	"github.com/bbva/qed/consensus"
 	"github.com/hashicorp/raft"
 	"qedverif/cq"
+	"sync"
+	"sync/atomic"
 )
 
 // ---- C15: the replicated-log store against a map model (via the verif hook)
@@ -313,5 +315,118 @@ func raftlogScripted(out *cq.Out, seed uint64) {
 		st.Close()
 		os.RemoveAll(dir)
 		out.Case("scripted:resurrect", true)
+	}
+	// (3) raft calls the store from several goroutines at once (the leader's loop appends while each follower's replication
+	// goroutine and the snapshot goroutine read): six readers while 6 000 entries are appended in batches of 1-4; every read
+	// of a stored index returns that index's entry, and afterwards - and after a reopen - every index holds its own entry
+	{
+		dir, _ := os.MkdirTemp(out.Dir, "raftlogconc")
+		st, err := consensus.VOpenRaftLog(dir)
+		if err != nil {
+			panic(err)
+		}
+		const total = 6000
+		payload := func(i uint64) []byte {
+			return []byte(fmt.Sprintf("entry-%d-%d", i, i*2654435761))
+		}
+		var stored uint64 // highest index whose StoreLogs call has returned
+		var wrongReads, failedReads, reads int64
+		firstBad := ""
+		var fmu sync.Mutex
+		var wg sync.WaitGroup
+		stop := make(chan struct{})
+		for g := 0; g < 6; g++ {
+			wg.Add(1)
+			go func(g int) {
+				defer wg.Done()
+				x := uint64(g*7919 + 1)
+				for {
+					select {
+					case <-stop:
+						return
+					default:
+					}
+					hi := atomic.LoadUint64(&stored)
+					if hi == 0 {
+						continue
+					}
+					x = x*6364136223846793005 + 1442695040888963407
+					idx := 1 + (x>>33)%hi
+					var l raft.Log
+					err := st.GetLog(idx, &l)
+					atomic.AddInt64(&reads, 1)
+					if err != nil {
+						atomic.AddInt64(&failedReads, 1)
+						fmu.Lock()
+						if firstBad == "" {
+							firstBad = fmt.Sprintf("GetLog(%d) = %v although StoreLogs of it had returned", idx, err)
+						}
+						fmu.Unlock()
+					} else if l.Index != idx || !bytes.Equal(l.Data, payload(idx)) {
+						atomic.AddInt64(&wrongReads, 1)
+						fmu.Lock()
+						if firstBad == "" {
+							firstBad = fmt.Sprintf("GetLog(%d) returned the entry of index %d (%q)", idx, l.Index, l.Data)
+						}
+						fmu.Unlock()
+					}
+				}
+			}(g)
+		}
+		storeErr := ""
+		for i := uint64(1); i <= total; {
+			n := 1 + (i*2654435761>>7)%4
+			var ls []*raft.Log
+			for k := uint64(0); k < n && i+k <= total; k++ {
+				ls = append(ls, &raft.Log{Index: i + k, Term: 1 + (i+k)/1000, Type: raft.LogCommand, Data: payload(i + k)})
+			}
+			var err error
+			if len(ls) == 1 {
+				err = st.StoreLog(ls[0])
+			} else {
+				err = st.StoreLogs(ls)
+			}
+			if err != nil && storeErr == "" {
+				storeErr = err.Error()
+			}
+			i += uint64(len(ls))
+			atomic.StoreUint64(&stored, i-1)
+		}
+		close(stop)
+		wg.Wait()
+		check := func(when string) (missing, foreign int, first string) {
+			for i := uint64(1); i <= total; i++ {
+				var l raft.Log
+				if err := st.GetLog(i, &l); err != nil {
+					missing++
+					if first == "" {
+						first = fmt.Sprintf("%s: index %d: %v", when, i, err)
+					}
+				} else if l.Index != i || !bytes.Equal(l.Data, payload(i)) || l.Term != 1+i/1000 {
+					foreign++
+					if first == "" {
+						first = fmt.Sprintf("%s: index %d holds the entry of index %d", when, i, l.Index)
+					}
+				}
+			}
+			return
+		}
+		m1, f1, w1 := check("after the concurrent phase")
+		fi, _ := st.FirstIndex()
+		la, _ := st.LastIndex()
+		st.Close()
+		st, _ = consensus.VOpenRaftLog(dir)
+		m2, f2, w2 := check("after a reopen")
+		st.Close()
+		os.RemoveAll(dir)
+		out.Case("scripted:concurrent-readers-and-appender", true)
+		out.Count("raftlog_concurrent_reads", int(reads))
+		if wrongReads > 0 || failedReads > 0 || m1+f1+m2+f2 > 0 || fi != 1 || la != total || storeErr != "" {
+			if firstBad == "" {
+				firstBad = w1 + w2
+			}
+			out.Violate("C15:concurrent-use", fmt.Sprintf("six readers while %d entries were appended in batches of 1-4: %d of %d reads returned another index's entry, %d reads of a stored index failed; afterwards %d indexes have no entry and %d hold another index's entry (%d / %d after a reopen); FirstIndex=%d LastIndex=%d store error %q (first: %.200s)",
+				total, wrongReads, reads, failedReads, m1, f1, m2, f2, fi, la, storeErr, firstBad), map[string]interface{}{"seed": seed, "scenario": "concurrent-readers-and-appender", "entries": total, "readers": 6})
+		}
 	}
 }
